@@ -398,6 +398,17 @@ class Interp:
     def assign(self, t, val, env):
         if isinstance(t, ast.Name):
             env[t.id] = val
+        elif isinstance(t, ast.Subscript) and isinstance(t.slice, ast.Slice):
+            base = self.eval(t.value, env)
+            lo = self.eval(t.slice.lower, env) if t.slice.lower is not None else None
+            hi = self.eval(t.slice.upper, env) if t.slice.upper is not None else None
+            if t.slice.step is not None or not isinstance(base, AList):
+                self.bad(t, 'slice store outside the subset')
+            if any(isinstance(x, float) for x in (lo, hi)):
+                raise RaiseSig('TypeError', ('slice indices must be integers',), t)
+            if not all(x is None or isinstance(x, int) for x in (lo, hi)):
+                self.bad(t, 'slice store with non-concrete bounds')
+            base.l[lo:hi] = list(self.iterate(val, t))
         elif isinstance(t, ast.Subscript):
             base = self.eval(t.value, env)
             key = self.eval(t.slice, env)
@@ -533,6 +544,24 @@ class Interp:
             return Sym('binop', type(op).__name__, a, b)
         if isinstance(a, AList) and isinstance(b, AList) and isinstance(op, ast.Add):
             return AList(a.l + b.l)
+        plain = (int, float, str, bool, type(None))
+        if isinstance(a, plain) and isinstance(b, plain):
+            # fully concrete host values: the host operator itself (including its TypeError for unsupported operand types)
+            import operator as _op
+            fn = {ast.Add: _op.add, ast.Sub: _op.sub, ast.Mult: _op.mul, ast.Div: _op.truediv, ast.FloorDiv: _op.floordiv, ast.Mod: _op.mod, ast.Pow: _op.pow,
+                  ast.LShift: _op.lshift, ast.RShift: _op.rshift, ast.BitAnd: _op.and_, ast.BitOr: _op.or_, ast.BitXor: _op.xor}.get(type(op))
+            if fn is not None and not (isinstance(op, ast.Mult) and ((isinstance(a, str) and isinstance(b, int) and b > 100000) or (isinstance(b, str) and isinstance(a, int) and a > 100000))):
+                try:
+                    return fn(a, b)
+                except (TypeError, ZeroDivisionError, OverflowError, ValueError) as exc:
+                    raise RaiseSig(type(exc).__name__, (str(exc),), node)
+        if isinstance(op, ast.Mult) and ((isinstance(a, AList) and isinstance(b, int) and not isinstance(b, bool)) or (isinstance(b, AList) and isinstance(a, int) and not isinstance(a, bool))):
+            lst, n = (a, b) if isinstance(a, AList) else (b, a)
+            if n > 100000:
+                self.bad(node, 'list repetition beyond the evaluation bound')
+            return AList(lst.l * n)
+        if isinstance(op, ast.Mult) and ((isinstance(a, (AList, str)) and isinstance(b, float)) or (isinstance(b, (AList, str)) and isinstance(a, float))):
+            raise RaiseSig('TypeError', ("can't multiply sequence by non-int of type 'float'",), node)
         self.bad(node, f'binary operation on {type(a).__name__}, {type(b).__name__}')
 
     def eval(self, e, env):
@@ -656,6 +685,15 @@ class Interp:
             if isinstance(e.slice, ast.Slice):
                 lo = self.eval(e.slice.lower, env) if e.slice.lower is not None else None
                 hi = self.eval(e.slice.upper, env) if e.slice.upper is not None else None
+                if e.slice.step is not None:
+                    step = self.eval(e.slice.step, env)
+                    if isinstance(base, (AList, str, tuple, list)) and any(isinstance(x, float) for x in (lo, hi, step)):
+                        raise RaiseSig('TypeError', ('slice indices must be integers',), e)
+                    if not all(x is None or isinstance(x, int) for x in (lo, hi, step)) or not isinstance(base, (AList, str, tuple, list)):
+                        self.bad(e, 'extended slice outside the subset')
+                    if step == 0:
+                        raise RaiseSig('ValueError', ('slice step cannot be zero',), e)
+                    return AList(base.l[lo:hi:step]) if isinstance(base, AList) else base[lo:hi:step]
                 if isinstance(base, (AList, str)) and any(isinstance(x, float) for x in (lo, hi)):
                     raise RaiseSig('TypeError', ('slice indices must be integers',), e)
                 if isinstance(base, AList) and all(x is None or isinstance(x, int) for x in (lo, hi)):
@@ -1025,6 +1063,31 @@ class Interp:
             return ARegex('<anonymous>')
         if name in ('re.match', 're.search', 're.fullmatch', 're.sub', 're.split', 're.findall') and len(args) >= 2 and isinstance(args[0], str):
             return self.call_method(ARegex('<anonymous>', args[0], 0), name[3:], args[1:], e)
+        if name in ('urllib.parse.quote', 'urllib.parse.quote_plus', 'urllib.parse.unquote', 'urllib.parse.unquote_plus') and args and all(isinstance(a, str) for a in args):
+            import urllib.parse as _up
+            kw = {k: v for k, v in (getattr(self, '_kwargs', None) or {}).items() if isinstance(v, str)}
+            self._kwargs = {}
+            return getattr(_up, name.rsplit('.', 1)[1])(*args, **kw)
+        if name in ('copy.copy', 'copy.deepcopy') and len(args) == 1:
+            def cp(v, deep, memo):
+                if isinstance(v, AList):
+                    if id(v) in memo:
+                        return memo[id(v)]
+                    out = AList()
+                    memo[id(v)] = out
+                    out.l = [cp(x, deep, memo) if deep else x for x in v.l]
+                    return out
+                if isinstance(v, ADict):
+                    if id(v) in memo:
+                        return memo[id(v)]
+                    out = ADict()
+                    memo[id(v)] = out
+                    out.d = {k: (cp(x, deep, memo) if deep else x) for k, x in v.d.items()}
+                    return out
+                if isinstance(v, (Sym, ALine, AMatch)):
+                    return v if not deep else Sym('deepcopy', v)
+                return v
+            return cp(args[0], name.endswith('deepcopy'), {})
         if name == 're.escape' and len(args) == 1 and isinstance(args[0], str):
             import re as _re
             return _re.escape(args[0])
@@ -1157,6 +1220,13 @@ class Interp:
             env = dict(cenv)
             env.update(zip(params, args))
             return self.eval(lam.body, env)
+        if isinstance(fn, tuple) and fn and fn[0] == 'extern' and getattr(self, 'repo', None) is not None:
+            try:
+                other = self.repo.resolve_module(fn[1]) if fn[1].startswith('.') else self.repo.module(fn[1])
+            except Unrecognised:
+                other = None
+            if other is not None and fn[2] in other.funcs:
+                return self.sub_interp(other).call_function(other.funcs[fn[2]], list(args), at)
         self.bad(at, f'value {fn!r} is not callable')
 
     def call_method(self, base, m, args, e):
@@ -1640,6 +1710,9 @@ class Interp:
             if isinstance(obj, Sym) and name == 'getattr' and len(args) > 2:
                 return Sym('attr', obj, attr)          # an opaque host object: whatever it has there is not a repository object
             self.bad(e, f'{name}() of an abstract value {obj!r}')
+        if name == 'object' and not args:
+            self._obj_counter = getattr(self, '_obj_counter', 0) + 1
+            return Sym('object', self._obj_counter)          # a fresh sentinel: identical only to itself
         if name == 'callable':
             return isinstance(args[0], (ModuleFunc,)) or (isinstance(args[0], tuple) and args[0] and args[0][0] in ('closure', 'partial', 'extern', 'builtin')) or \
                 (isinstance(args[0], Sym) and args[0].kind == 'hostfn')
